@@ -267,9 +267,10 @@ CHECKS = {
             'graphs ranked so that a graph only holds graphs of smaller rank; the same graph may stand at several levels), '
             'within rank + 1 rounds; depends_rec_reads: depends(x, y, recurse=True) always answers, with the truth, on every graph a '
             'history can build, cycles included (invariant of the breadth-first waves + the measure that every wave that '
-            'does not answer sees a new position: size + 1 waves are enough); dependencies_rec_reads: when the work-list loop of dependencies(recurse=True) returns it has collected '
-            'exactly the nodes reachable in one step or more (partial correctness by a loop invariant; the model budget '
-            'running out would be a disagreement). That flatten(recurse=True) returns is a theorem (flatten_returns); that the result of several levels preserves the ordering '
+            'does not answer sees a new position: size + 1 waves are enough); dependencies_rec_returns: dependencies(x, recurse=True) always returns, cycles included, with exactly the nodes reachable '
+            'in one step or more (partial correctness by a loop invariant, dependencies_rec_reads; totality by the stack discipline of '
+            'the work list: a second copy of a processed position is only popped after all its successors have been seen and pushes '
+            'nothing, so (size - |seen|) * (size + 1) + |queue| decreases at every round, depsLoop_total). That flatten(recurse=True) returns is a theorem (flatten_returns); that the result of several levels preserves the ordering '
             'constraints is proved round by round (grafts_preserve_order) and checked as a whole against DepGraph and the set-level '
             'oracle on every run.',
             'Trusted: Lean kernel + standard axioms; correspondence sampled (exhaustive <= 4 nodes in thorough); node '
